@@ -125,6 +125,11 @@ impl<'buf> Cursor<'buf> {
         self.offset
     }
 
+    /// The whole buffer this cursor reads from
+    pub(crate) fn buf(&self) -> &'buf [u8] {
+        self.buf
+    }
+
     pub fn align_to(&mut self, alignment: usize) -> Result<usize, UnmarshalError> {
         let padding = crate::wire::util::align_offset(alignment, self.buf, self.offset)?;
 
